@@ -231,6 +231,7 @@ def make_cfg(rng) -> dict:
 class Gen:
     def __init__(self, rng, cfg):
         self.rng, self.cfg = rng, cfg
+        self.kshape2 = None
         self.recipes: list[dict] = []
         self.steps: list[dict] = []
         self.T: dict[int, dict] = {}    # transformation slots: {"m": shadow, "fshape": tuple}
@@ -434,6 +435,14 @@ class Gen:
             ms = [[self.inv_matrix(n) for _ in range(2)] for _ in range(2)]
             s = self.add_recipe("transfcoll", [ms], {"dt": rng.choice(["f", "i"])})
             self.T[s] = {"m": np.array(ms, float), "fshape": (2, 2)}
+        if cfg["big_coll"] and rng.random() < 0.3:
+            # two collection axes with 64 or more matrices in total: the batch code paths see (a, b, n, n) arrays
+            sh = rng.choice([(8, 8), (4, 16), (16, 4), (5, 13)])
+            base = [self.inv_matrix(n, 30.0) for _ in range(5)]
+            ms = [[base[(i_ * sh[1] + j_) % 5] for j_ in range(sh[1])] for i_ in range(sh[0])]
+            s = self.add_recipe("transfcoll", [ms], {"dt": rng.choice(["f", "i"])})
+            self.T[s] = {"m": np.array(ms, float), "fshape": sh}
+            self.kshape2 = sh
         singles = sorted(t for t, v in self.T.items() if v["fshape"] == ())
         if len(singles) >= 2 and rng.random() < 0.4:
             a_, b_ = rng.sample(singles, 2)
@@ -471,6 +480,9 @@ class Gen:
                   {"dt": "i"})
         if rng.random() < 0.3:
             obj("point", (2, 2), "pointcoll", [[[pt(), pt()], [pt(), pt()]]], {"dt": "i"})
+        if getattr(self, "kshape2", None):
+            sh2 = self.kshape2
+            obj("point", tuple(sh2), "pointcoll", [[[pt() for _ in range(sh2[1])] for _ in range(sh2[0])]], {"dt": pg.dt()})
         obj("line", (), "line_pq", [G[0], G[1]])
         obj("line", (), "line_pq", [G[1], G[2]])
         obj("line", (kc,), "linecoll_pq", [pc1, pc2])
